@@ -1,6 +1,7 @@
 package props
 
 import (
+	"go/constant"
 	"fmt"
 	"go/token"
 	"go/types"
@@ -301,43 +302,174 @@ func (x *Ctx) decodeLoopRule(r *core.Result, rs *core.RuleStat, name string, byt
 	if !condOK {
 		fail("bound", "the loop does not run while i < len(input)", iphi.Pos())
 	}
-	// the rune is appended unmodified exactly once
-	uses := 0
-	for _, ref := range *rEx.Referrers() {
-		switch u := ref.(type) {
-		case *ssa.DebugRef:
-		case *ssa.Convert:
-			// string(r) appended to the destination
-			if !isStringType(u.Type()) {
-				fail("rune-use", "the rune is converted to something other than a string", u.Pos())
-			}
-			for _, r2 := range *u.Referrers() {
-				if c, isCall := r2.(*ssa.Call); isCall {
-					if bi, isB := c.Call.Value.(*ssa.Builtin); isB && bi.Name() == "append" {
-						uses++
+	// every trip round the loop emits exactly the UTF-8 encoding of the decoded rune, once: either the rune itself
+	// (append(runes, r), utf8.AppendRune(buf, r), append(buf, string(r)...)), or the bytes input[i:i+w] where they are
+	// that encoding (anywhere except r == RuneError with w == 1), or U+FFFD where r is RuneError
+	head := iphi.Block()
+	inBody := func(b *ssa.BasicBlock) bool { return b != head && head.Dominates(b) && canReach(b, head) }
+	type emission struct {
+		kind string // "rune", "bytes", "fffd", "other"
+		pos  token.Pos
+	}
+	isFFFD := func(v ssa.Value) bool {
+		if k, isK := constBig(v); isK && k.Int64() == 0xFFFD {
+			return true
+		}
+		if c, isC := v.(*ssa.Const); isC && c.Value != nil && c.Value.Kind() == constant.String && constant.StringVal(c.Value) == "\uFFFD" {
+			return true
+		}
+		return false
+	}
+	classify := func(ins ssa.Instruction) *emission {
+		c, isCall := ins.(*ssa.Call)
+		if !isCall {
+			return nil
+		}
+		if bi, isB := c.Call.Value.(*ssa.Builtin); isB && bi.Name() == "append" && len(c.Call.Args) == 2 {
+			arg := c.Call.Args[1]
+			// append(runes, r): the variadic argument is a one-element array holding r
+			if sl, isSl := arg.(*ssa.Slice); isSl {
+				if al, isAl := sl.X.(*ssa.Alloc); isAl {
+					for _, ref := range *al.Referrers() {
+						if ia, isIA := ref.(*ssa.IndexAddr); isIA {
+							for _, r2 := range *ia.Referrers() {
+								if st, isSt := r2.(*ssa.Store); isSt {
+									switch {
+									case st.Val == ssa.Value(rEx):
+										return &emission{"rune", c.Pos()}
+									case isFFFD(st.Val):
+										return &emission{"fffd", c.Pos()}
+									}
+									return &emission{"other", c.Pos()}
+								}
+							}
+						}
 					}
 				}
+				// append(buf, input[i:i+w]...)
+				if sl.X == ssa.Value(fn.Params[0]) && sl.Low == ssa.Value(iphi) {
+					if add, isAdd := sl.High.(*ssa.BinOp); isAdd && add.Op == token.ADD && ((add.X == ssa.Value(iphi) && add.Y == ssa.Value(wEx)) || (add.Y == ssa.Value(iphi) && add.X == ssa.Value(wEx))) {
+						return &emission{"bytes", c.Pos()}
+					}
+				}
+				return &emission{"other", c.Pos()}
 			}
-		case *ssa.Store:
-			// runes = append(runes, r): varargs store
-			uses++
+			// append(buf, string(r)...) / append(buf, "\uFFFD"...)
+			if cv, isCv := arg.(*ssa.Convert); isCv && cv.X == ssa.Value(rEx) && isStringType(cv.Type()) {
+				return &emission{"rune", c.Pos()}
+			}
+			if isFFFD(arg) {
+				return &emission{"fffd", c.Pos()}
+			}
+			return &emission{"other", c.Pos()}
+		}
+		if callee := c.Call.StaticCallee(); callee != nil && callee.Pkg != nil && callee.Pkg.Pkg.Path() == "unicode/utf8" && (callee.Name() == "AppendRune" || callee.Name() == "EncodeRune") && len(c.Call.Args) == 2 {
+			switch {
+			case c.Call.Args[1] == ssa.Value(rEx):
+				return &emission{"rune", c.Pos()}
+			case isFFFD(c.Call.Args[1]):
+				return &emission{"fffd", c.Pos()}
+			}
+			return &emission{"other", c.Pos()}
+		}
+		return nil
+	}
+	// other uses of the rune (arithmetic on it, passing it elsewhere) would mean it is not emitted unmodified
+	for _, ref := range *rEx.Referrers() {
+		switch u := ref.(type) {
+		case *ssa.DebugRef, *ssa.Store, *ssa.Convert:
+		case *ssa.BinOp:
+			if !isCmpOp(u.Op) {
+				fail("rune-use", "the decoded rune is modified before use", u.Pos())
+			}
 		case *ssa.Call:
-			if callee := u.Call.StaticCallee(); callee != nil && callee.Pkg != nil && callee.Pkg.Pkg.Path() == "unicode/utf8" && callee.Name() == "AppendRune" {
-				uses++
-				continue
+			if classify(u) == nil {
+				r.Undecided(rs, name+":rune-use", w.Pos(dec.Pos()), "the decoded rune is handed to a call instead of being appended: whether exactly its UTF-8 encoding is appended cannot be judged by this rule")
+				ok = false
 			}
-			r.Undecided(rs, name+":rune-use", w.Pos(dec.Pos()), "the decoded rune is handed to a call instead of being appended: whether exactly its UTF-8 encoding is appended cannot be judged by this rule")
-			ok = false
 		default:
 			fail("rune-use", fmt.Sprintf("the decoded rune is used by %T instead of being appended unmodified", u), dec.Pos())
 		}
 	}
-	if uses != 1 {
-		fail("append-once", fmt.Sprintf("the decoded rune is appended %d times per iteration, expected exactly once", uses), dec.Pos())
+	type pfacts struct{ rErr, wOne int } // +1 known true, -1 known false
+	var walk func(b *ssa.BasicBlock, f pfacts, n int, bad string, depth int)
+	paths, badPaths := 0, 0
+	walk = func(b *ssa.BasicBlock, f pfacts, n int, bad string, depth int) {
+		if depth > 40 {
+			fail("paths", "the loop body is too branched to enumerate", dec.Pos())
+			return
+		}
+		if b == head {
+			paths++
+			if n != 1 && bad == "" {
+				bad = fmt.Sprintf("one trip round the loop appends %d times, expected exactly once", n)
+			}
+			if bad != "" {
+				badPaths++
+				if badPaths <= 2 {
+					fail("append-once", bad, dec.Pos())
+				}
+			}
+			return
+		}
+		if !inBody(b) {
+			return // leaves the loop: not a trip round it
+		}
+		for _, ins := range b.Instrs {
+			if e := classify(ins); e != nil {
+				n++
+				switch e.kind {
+				case "bytes":
+					if !(f.rErr == -1 || f.wOne == -1) {
+						bad = "input[i:i+w] is copied where it may be an invalid byte (r == RuneError with w == 1): the replacement character must be written there"
+					}
+				case "fffd":
+					if f.rErr != 1 {
+						bad = "U+FFFD is written where the decoded rune may be something else"
+					}
+				case "other":
+					bad = "something other than the decoded rune is appended"
+				}
+			}
+		}
+		if iff, isIf := b.Instrs[len(b.Instrs)-1].(*ssa.If); isIf {
+			for i, s2 := range b.Succs {
+				nf := f
+				if be, isBe := iff.Cond.(*ssa.BinOp); isBe && (be.Op == token.EQL || be.Op == token.NEQ) {
+					truth := (be.Op == token.EQL) == (i == 0)
+					v := -1
+					if truth {
+						v = 1
+					}
+					switch {
+					case be.X == ssa.Value(rEx) && isFFFD(be.Y):
+						nf.rErr = v
+					case be.X == ssa.Value(wEx):
+						if k, isK := constBig(be.Y); isK && k.Int64() == 1 {
+							nf.wOne = v
+						}
+					}
+				}
+				walk(s2, nf, n, bad, depth+1)
+			}
+			return
+		}
+		for _, s2 := range b.Succs {
+			walk(s2, f, n, bad, depth+1)
+		}
+	}
+	for _, s2 := range head.Succs {
+		if inBody(s2) {
+			walk(s2, pfacts{}, 0, "", 0)
+		}
+	}
+	// emissions in the head block itself (for { r, w := …; append; if i >= len { break } } shapes) are not handled
+	if paths == 0 {
+		fail("append-once", "no complete trip round the decoding loop found", dec.Pos())
 	}
 	if ok {
 		rs.OK(1)
-		rs.Sample(name + ": r, w := DecodeRune(input[i:]); i += w; append(r) once; while i < len(input)")
+		rs.Sample(fmt.Sprintf("%s: r, w := DecodeRune(input[i:]); i += w; every one of the %d ways round the loop appends exactly the encoding of r once; while i < len(input)", name, paths))
 	}
 }
 
